@@ -44,10 +44,15 @@ def work(task):
     b = task.get("opts", {}).get("backend")
     ru = task.get("opts", {}).get("remove_unused", False)
     for backend in ([b] if b else BACKENDS):
-        view = checks.make_view(prog, ode, backend, schemes=["explicit_euler"])
+        # both accepted names requested in one call: each must be emitted under its own name
+        view = checks.make_view(prog, ode, backend, schemes=["explicit_euler", "forward_explicit_euler"])
         if view is None:
             continue
         checks.check_euler(prog, view, m)
+        if view.has("forward_explicit_euler"):
+            checks.check_euler(prog, view, m, fn="forward_explicit_euler", tag="|alias")
+        else:
+            prog.fact(f"{backend}|alias|exists", False, "MissingFunction", "forward_explicit_euler requested but not emitted")
         if backend == "c":
             view.close()
         if ru:
